@@ -26,6 +26,14 @@ def make_data(rng, npr, kind, n, d):
     if kind == "pairs":      # well separated mutual-nearest-neighbour pairs (2-vertex components for n_neighbors = 2)
         c = np.repeat(npr.normal(size=((n + 1) // 2, d)) * 50, 2, axis=0)[:n]
         X = c + npr.normal(size=(n, d)) * 0.01
+    if kind == "iso_binary":  # binary rows; the last two rows own a private feature each (at the maximal jaccard / dice / ... distance from every other row)
+        d = max(d, 6)
+        X = np.zeros((n, d))
+        X[: n - 2, : d - 2] = (npr.uniform(size=(n - 2, d - 2)) < 0.6)
+        X[: n - 2, 0] = 1.0
+        X[n - 2, d - 2] = 1.0; X[n - 1, d - 1] = 1.0
+    if kind == "outlier":     # one sample far beyond any disconnection distance a caller would pass
+        X[n - 1] += 1000.0
     return X.astype(np.float32)
 
 
@@ -72,7 +80,15 @@ def run(ctx):
               dict(kind="pairs", init="tswspectral", nc=1, n=8, d=3, nn=2, metric="euclidean"),
               dict(kind="constcol", init="pca", nc=2, n=10, d=3, nn=5, metric="euclidean"),
               dict(kind="dups", init="spectral", nc=2, n=9, d=2, nn=3, metric="euclidean", unique=True, sparse=True),
-              dict(kind="binary", init="random", nc=1, n=12, d=5, nn=40, metric="jaccard")]
+              dict(kind="binary", init="random", nc=1, n=12, d=5, nn=40, metric="jaccard"),
+              # isolated samples (single-vertex graph components) under every initialiser: all other rows must stay finite
+              dict(kind="iso_binary", init="spectral", nc=2, n=20, d=8, nn=5, metric="jaccard"),
+              dict(kind="iso_binary", init="spectral", nc=1, n=14, d=8, nn=4, metric="jaccard", sparse=True),
+              dict(kind="iso_binary", init="tswspectral", nc=2, n=16, d=7, nn=4, metric="dice"),
+              dict(kind="outlier", init="spectral", nc=2, n=25, d=3, nn=5, metric="euclidean", disc=20.0),
+              dict(kind="outlier", init="spectral", nc=3, n=18, d=4, nn=4, metric="manhattan", disc=30.0),
+              dict(kind="outlier", init="pca", nc=2, n=25, d=3, nn=5, metric="euclidean", disc=20.0),
+              dict(kind="outlier", init="random", nc=2, n=25, d=3, nn=5, metric="euclidean", disc=20.0)]
     ntrials = 70 if quick else 700
     for trial in range(ntrials + len(forced)):
         fc = forced[trial - ntrials] if trial >= ntrials else None
@@ -89,6 +105,7 @@ def run(ctx):
         if fc:
             sparse, metric, init, unique = fc.get("sparse", False), fc["metric"], fc["init"], fc.get("unique", False)
             kw.update(n_neighbors=fc["nn"], metric=metric)
+            if "disc" in fc: kw["disconnection_distance"] = fc["disc"]
         nd = distinct_rows(X)
         if unique and (init.startswith("array") or nd <= nc + 1):
             unique = False     # init arrays are per input row; below nc+2 distinct rows the size precondition fails (probed separately)
@@ -104,7 +121,8 @@ def run(ctx):
         else: kw["init"] = init
         D = sp.csr_matrix(X) if sparse else X
         desc = dict(X=X, sparse=sparse, data_kind=kind, init_kind=init, **{k: v for k, v in kw.items()})
-        tags = [t for t, f in ((kind, kind != "gauss"), ("init_" + init, init != "spectral"), ("sparse", sparse), ("unique", unique), ("n<=k", n_fit <= kw["n_neighbors"]),
+        if fc and "disc" in fc: desc["disconnection_distance"] = fc["disc"]
+        tags = [t for t, f in ((kind, kind != "gauss"), ("isolated_samples", kind in ("iso_binary", "outlier")), ("init_" + init, init != "spectral"), ("sparse", sparse), ("unique", unique), ("n<=k", n_fit <= kw["n_neighbors"]),
                                ("tiny_n", n == nc + 2), ("epochs0", kw["n_epochs"] == 0), ("lr~0", kw["learning_rate"] < 1), ("one_feature", d == 1)) if f]
         ctx.tag(("grid", trial), tags); ctx.count("init_" + init); ctx.count("metric_" + metric)
         try:
